@@ -177,6 +177,23 @@ theorem setAttr_delete_wf {m : MeshVal α} (h : WF m) (k : AttrKey)
 
 example : WF (sample.setAttr ⟨1, "Class"⟩ []) ∧ (sample.setAttr ⟨1, "Class"⟩ []).attrs.length = 1 := by decide
 
+/-- `ClearAttributeData` keeps the indices and drops every attribute array: a caller-checked builder, well-formed
+    exactly when there is no index. -/
+theorem clearAttrs_wf {m : MeshVal α} (h : WF m) (hi : m.indices = []) : WF m.clearAttrs := MeshVal.clearAttrs_wf h hi
+
+/-- the guard of `clearAttrs_wf` is needed: an indexed mesh loses well-formedness -/
+example : ¬ WF sample.clearAttrs := by decide
+
+/-- `SetFloatNData(map)` (raw whole-width setter, nothing checked): well-formed when every new array has the
+    common length and some array remains (or there is no index). `CopyFloatNAttribute(src, k)` is
+    `setAttr k (src's array)`: guards of `setAttr_wf` / `setAttr_delete_wf`. -/
+theorem setData_wf {m : MeshVal α} (h : WF m) (w : Nat) (new : Attrs α)
+    (hnew : ∀ kd ∈ new, kd.2.length = m.attrLen)
+    (hne : (m.setData w new).attrs ≠ [] ∨ m.indices = []) : WF (m.setData w new) := MeshVal.setData_wf h w new hnew hne
+
+example : WF (sample.setData 3 [(⟨3, "Position"⟩, [1, 2, 3, 4, 5]), (⟨3, "Other"⟩, [0, 0, 0, 0, 0])]) := by decide
+example : ¬ WF (sample.setData 3 [(⟨3, "Position"⟩, [1, 2, 3])]) := by decide
+
 /-- every transform that rewrites one attribute array by a length-preserving function:
     `ModifyFloatNAttribute`, `Translate`, `Scale`, `Rotate`, `ApplyTRS`, meshops `TranslateAttribute3D`,
     `ScaleAttribute3D/2D`, `ScaleAttributeAlongNormal`, `RotateAttribute3D`, `CenterFloat3Attribute`,
@@ -298,13 +315,23 @@ theorem march_wf {zero : Nat → α} {t : Topology} (blocks : List (MeshVal α))
 
 /-! ## Any finite composition of operations -/
 
-/-- one application of a mesh operation (with arbitrary parameters) to `m` yielding `m'` -/
+/-- one application of a mesh operation (with arbitrary parameters) to `m` yielding `m'`.
+    GUARDS: `setIndices`, `setAttr`, `setAttrDelete`, `clearAttrs`, `setData` (and `CopyFloatNAttribute` = `setAttr`)
+    take caller-supplied data that the Go code does not check; they are steps only under the stated length /
+    range guards (with other data they are builders whose result the caller completes — outside `ops_closed`).
+    Every other constructor is unconditional: the operation either rejects or yields `m'`. -/
 inductive Step (zero : Nat → α) : MeshVal α → MeshVal α → Prop
   | unweld (m) : Step zero m m.unweld
   | removeUnreferenced (m) : Step zero m m.removeUnreferenced
   | toPointCloud (m) : Step zero m m.toPointCloud
   | flip {m m'} : m.flip = some m' → Step zero m m'
   | setMaterials (m ms) : Step zero m (m.setMaterials ms)
+  | setMaterial (m mat) : Step zero m (m.setMaterial mat)
+  -- caller-checked builders: each carries the guard under which it keeps WF (the Go code checks none of them)
+  | setAttrDelete (m k) : ((∃ kd ∈ m.attrs, kd.1 ≠ k) ∨ m.indices = []) → Step zero m (m.setAttr k [])
+  | clearAttrs (m) : m.indices = [] → Step zero m m.clearAttrs
+  | setData (m w new) : (∀ kd ∈ new, kd.2.length = m.attrLen) → ((m.setData w new).attrs ≠ [] ∨ m.indices = []) →
+      Step zero m (m.setData w new)
   | setIndices (m idx) : (∀ i ∈ idx, i < m.attrLen) → m.topology.Fits idx.length → Step zero m (m.setIndices idx)
   | setAttr (m k data) : (data.length = m.attrLen ∨ m.attrs = []) → Step zero m (m.setAttr k data)
   | modifyAttr {m m'} (k f) : (∀ d, (f d).length = d.length) → m.modifyAttr k f = some m' → Step zero m m'
@@ -329,6 +356,10 @@ theorem step_wf {zero : Nat → α} {m m' : MeshVal α} (hs : Step zero m m') (h
   | toPointCloud => exact toPointCloud_wf h
   | flip hf => exact flip_wf h hf
   | setMaterials => exact h
+  | setMaterial => exact h
+  | setAttrDelete k hk => exact setAttr_delete_wf h k hk
+  | clearAttrs hi => exact clearAttrs_wf h hi
+  | setData w new hnew hne => exact setData_wf h w new hnew hne
   | setIndices idx hi hf => exact setIndices_wf h idx hi hf
   | setAttr k data hd => exact setAttr_wf h k data hd
   | modifyAttr k f hf hm => exact modifyAttr_wf h hf hm
@@ -347,6 +378,65 @@ theorem ops_closed {zero : Nat → α} {m m' : MeshVal α} (hs : Steps zero m m'
   induction hs with
   | refl => exact h
   | tail _ hstep ih => exact step_wf hstep ih
+
+section
+open PolyVerif PolyVerif.Gen
+variable {s : Type} [Scalar s]
+
+/-- a step on meshes with vector payloads: any generic step, or one of the ten concrete transforms -/
+inductive StepT (zero : Nat → List s) : MeshVal (List s) → MeshVal (List s) → Prop
+  | generic {m m'} : Step zero m m' → StepT zero m m'
+  | translate {m m'} (n t) : m.translate n t = some m' → StepT zero m m'
+  | scaleAbout {m m'} (n o a) : m.scaleAbout n o a = some m' → StepT zero m m'
+  | scaleMesh {m m'} (a) : m.scaleMesh a = some m' → StepT zero m m'
+  | rotate {m m'} (n q) : m.rotate n q = some m' → StepT zero m m'
+  | applyTRS {m m'} (t) : m.applyTRS t = some m' → StepT zero m m'
+  | center {m m'} (mn mx n) : MeshVal.center mn mx m n = some m' → StepT zero m m'
+  | normalize {m m'} (init mx n) : MeshVal.normalize init mx m n = some m' → StepT zero m m'
+  | smoothNormals {m m'} : m.smoothNormals = some m' → StepT zero m m'
+  | flatNormals {m m'} : m.flatNormals = some m' → StepT zero m m'
+  | laplacian {m m'} (n iters factor) : m.laplacian n iters factor = some m' → StepT zero m m'
+
+inductive StepsT (zero : Nat → List s) : MeshVal (List s) → MeshVal (List s) → Prop
+  | refl (m) : StepsT zero m m
+  | tail {a b c} : StepsT zero a b → StepT zero b c → StepsT zero a c
+
+/-- **C02, operations clause including the ten transforms**: layout operations, guarded setters and
+    translate / scale / rotate / TRS / centre / normalise / smooth normals / flat normals / Laplacian, in any finite
+    sequence, keep a well-formed mesh well-formed. -/
+theorem ops_closed_transforms {zero : Nat → List s} {m m' : MeshVal (List s)} (hs : StepsT zero m m') (h : WF m) : WF m' := by
+  induction hs with
+  | refl => exact h
+  | tail _ hstep ih =>
+    cases hstep with
+    | generic hg => exact step_wf hg ih
+    | translate n t hm => exact translate_wf ih hm
+    | scaleAbout n o a hm => exact scaleAbout_wf ih hm
+    | scaleMesh a hm => exact scaleMesh_wf ih hm
+    | rotate n q hm => exact rotate_wf ih hm
+    | applyTRS t hm => exact applyTRS_wf ih hm
+    | center mn mx n hm => exact center_wf ih hm
+    | normalize init mx n hm => exact normalize_wf ih hm
+    | smoothNormals hm => exact smoothNormals_wf ih hm
+    | flatNormals hm => exact flatNormals_wf ih hm
+    | laplacian n iters factor hm => exact laplacian_wf ih hm
+
+end
+
+/-- marching cubes end to end (abstract model): every block is meshed by `marchBlock` from *any* emitted triangle
+    list, the block meshes are folded with `Append` from the empty mesh — the result is well-formed. -/
+theorem march_blocks_wf {V K : Type} [DecidableEq K] (key : V → K) (attr : AttrKey) {zero : Nat → V}
+    (tss : List (List (V × V × V))) {r : MeshVal V}
+    (hr : (tss.map fun ts => March.blockMesh attr (March.marchBlock key ts)).foldl
+            (fun acc b => acc.bind fun a => append zero a b) (some (MeshVal.empty .triangle)) = some r) : WF r :=
+  march_wf _ (fun b hb => by
+    obtain ⟨ts, _, rfl⟩ := List.mem_map.mp hb
+    exact marchBlock_wf key attr ts) hr
+
+example : ∃ r, ([[(1, 12, 25), (3, 27, 40)], [(5, 6, 70)]].map fun ts =>
+      March.blockMesh ⟨3, "Position"⟩ (March.marchBlock (fun v : Nat => v / 10) ts)).foldl
+        (fun acc b => acc.bind fun a => append (fun _ => 0) a b) (some (MeshVal.empty .triangle)) = some r ∧
+    r.indices = [0, 1, 2, 0, 2, 3, 4, 4, 5] := ⟨_, rfl, by decide⟩
 
 example : Steps (fun _ => 0) sample sample.unweld.removeUnreferenced.toPointCloud :=
   .tail (.tail (.tail (.refl _) (.unweld _)) (.removeUnreferenced _)) (.toPointCloud _)
